@@ -5,7 +5,7 @@ import itertools
 import math
 from fractions import Fraction
 
-from ..core import Sub, fail, isnum, jkey, enc, scale
+from ..core import Siblings, Sub, fail, isnum, jkey, enc, scale
 from .. import formula as F
 
 SEP = '<,>'
@@ -710,4 +710,19 @@ class LexScale(Sub):
         return out[:3]
 
 
-SUBS = [Numbers(), Strings(), Whitespace(), Accepted(), Blanks(), Arrays(), CellCase(), LexScale()]
+NEEDS_ZYGOTE = True
+
+
+class PowerSiblings(Siblings):
+    """the literal a^b shares its arithmetic with POWER: POWER with equal-but-float operands before (or after) the literal, in one
+    pristine process, must not change what the literal evaluates to"""
+    name = 'c05.siblings'
+    GROUPS = [
+        (['POWER({0}.0,{1})', 'POWER({0},{1}.0)', 'POWER({0}/1,{1})', '{0}^{1}', 'POWER({0},{1})', '{0}^{1}+0', '1*{0}^{1}', '{0}^{1}&""'],
+         [(3, 40), (13, 20), (17, 18), (2, 60), (7, 3), (10, 15), (99, 9)]),
+        (['{0}%', '{0}%+0', '{0}/100', '{0}.0/100', 'ROUND({0}%,4)', '{0}.{1}', '{0}.{1}+0', '.{1}', '0.{1}*1'],
+         [(35, 5), (57, 25), (7, 125), (100, 0), (1, 1)]),
+    ]
+
+
+SUBS = [Numbers(), Strings(), Whitespace(), Accepted(), Blanks(), Arrays(), CellCase(), LexScale(), PowerSiblings()]
